@@ -64,8 +64,16 @@ func TestVerif_C03_AtMostOnce(t *testing.T) {
 		execs := fExecCount(run.ExecLog)
 		nt := false
 		var classes []string
-		for _, ops := range plan.Callers {
-			for _, op := range ops {
+		startOf := map[[2]int]int64{}
+		for _, r := range run.Results {
+			startOf[[2]int{r.Caller, r.Op}] = r.StartUs
+		}
+		for ci, ops := range plan.Callers {
+			for oi, op := range ops {
+				issued, hasStart := startOf[[2]int{ci, oi}]
+				if !hasStart {
+					issued = -1
+				}
 				for _, cm := range op.Cmds {
 					if cm.Class != "write" {
 						continue
@@ -79,7 +87,7 @@ func TestVerif_C03_AtMostOnce(t *testing.T) {
 						nt = true
 					}
 					if n := execs[cm.UID]; n > 1 {
-						if fResentAfterExpiry(plan, run, attempts[cm.UID]) && c.Known("C03.conn-expired-resend") {
+						if fResentAfterExpiry(plan, issued, attempts[cm.UID]) && c.Known("C03.conn-expired-resend") {
 							classes = append(classes, "known-expired-resend")
 							continue
 						}
@@ -88,7 +96,7 @@ func TestVerif_C03_AtMostOnce(t *testing.T) {
 					if n := len(attempts[cm.UID]); n > 1 && execs[cm.UID] <= 1 {
 						// re-sent but only executed once (the first send was dropped before execution): still a
 						// second send without a redirect reply proving non-execution
-						if fResentAfterExpiry(plan, run, attempts[cm.UID]) && c.Known("C03.conn-expired-resend") {
+						if fResentAfterExpiry(plan, issued, attempts[cm.UID]) && c.Known("C03.conn-expired-resend") {
 							continue
 						}
 						c.Fail(rt, "C03.no-resend", fmt.Sprintf("non-retryable command %s was sent %d times without a MOVED/ASK/REDIRECT reply in between; attempts: %+v", cm.UID, n, attempts[cm.UID]), plan)
@@ -104,11 +112,21 @@ func TestVerif_C03_AtMostOnce(t *testing.T) {
 	})
 }
 
-// fResentAfterExpiry: every re-send of the command followed an attempt whose connection was closed
-// by the client itself at an age of at least ConnLifetime (the recorded finding), not a server-side drop.
-func fResentAfterExpiry(plan fPlan, run fRun, as []fAttempt) bool {
+// fResentAfterExpiry: every re-send of the command followed an attempt on a connection that the call had
+// been handed to before that connection's lifetime timer fired and that then ended at an age of at least
+// ConnLifetime (the recorded finding C03.conn-expired-resend: whatever such a connection still owes when it
+// ends is completed with errConnExpired and re-sent unconditionally) - not a server-side drop of a young
+// connection, and not a call that was issued after the expiry (an expired connection accepts nothing new).
+func fResentAfterExpiry(plan fPlan, issuedUs int64, as []fAttempt) bool {
 	if plan.Cfg.ConnLifetimeUs <= 0 || len(as) < 2 {
 		return false
+	}
+	life := int64(plan.Cfg.ConnLifetimeUs)
+	first := 0
+	for k := range as {
+		if as[k].ArrAtUs < as[first].ArrAtUs {
+			first = k
+		}
 	}
 	// Once the lifetime timer has fired every failure of that connection is reported as "expired",
 	// whoever closes it in the end. The server may parse the copies in any order (a copy can sit in
@@ -116,7 +134,11 @@ func fResentAfterExpiry(plan fPlan, run fRun, as []fAttempt) bool {
 	// ended at an age of at least ConnLifetime.
 	notExpired := 0
 	for k := range as {
-		if as[k].ConnCloseUs < 0 || as[k].ConnCloseUs-as[k].ConnOpenUs < int64(plan.Cfg.ConnLifetimeUs) {
+		expired := as[k].ConnCloseUs >= 0 && as[k].ConnCloseUs-as[k].ConnOpenUs >= life
+		if expired && k == first && issuedUs > as[k].ConnOpenUs+life {
+			expired = false // issued after the expiry of the connection that carried it first
+		}
+		if !expired {
 			notExpired++
 		}
 	}
@@ -242,7 +264,7 @@ func isReplyErr(err error) bool {
 func genC04Plan(rt *rapid.T) fPlan {
 	p := genFaultPlan(rt, "")
 	p.Cfg.ConnLifetimeUs = 0
-	p.Cfg.Retry = false // a read-only command against a dead server is retried for ever by design
+	p.Cfg.Retry = false  // a read-only command against a dead server is retried for ever by design
 	p.Cfg.Multiplex = -1 // one pipeline connection (see the later-calls clause)
 	hang := rapid.IntRange(0, 3).Draw(rt, "hangScenario") == 0
 	if hang {
@@ -266,6 +288,17 @@ func genC04Plan(rt *rapid.T) fPlan {
 				op.Kind, op.Cmds = "receive", nil
 				op.CancelUs = rapid.SampledFrom([]int{20000, 100000, 400000}).Draw(rt, "recvFor")
 			}
+		}
+	}
+	if !hang && rapid.IntRange(0, 2).Draw(rt, "internalFault") == 0 {
+		// the connection drops at a step of the client's own protocol (between an unsubscribe confirmation and the
+		// PONG that follows it, inside the MULTI of a cache fetch, during the handshake of a reconnect, ...)
+		p.IntFaults = append(p.IntFaults, fIntFault{
+			Cmd:  rapid.SampledFrom([]string{"PING", "PING", "UNSUBSCRIBE", "SUBSCRIBE", "MULTI", "EXEC", "PTTL", "HELLO"}).Draw(rt, "intCmd"),
+			Nth:  rapid.IntRange(0, 2).Draw(rt, "intNth"),
+			Kind: rapid.SampledFrom([]string{"drop-before", "drop-before", "drop-after", "drop-mid"}).Draw(rt, "intKind")})
+		if f := &p.IntFaults[len(p.IntFaults)-1]; f.Cmd == "HELLO" {
+			f.Nth += 2 // NewClient dials the pipeline connection (and fails the whole client if that dial fails): only re-dials are hit
 		}
 	}
 	if len(p.Events) == 0 && !hangDone {
@@ -295,6 +328,11 @@ func TestVerif_C04_NoHangingCalls(t *testing.T) {
 			failAt = append(failAt, int64(e.AtUs))
 			if e.Kind == "close" {
 				closeEv = true
+			}
+		}
+		for _, e := range run.Events {
+			if e.Kind == "fault" && fUIDOf(e.Argv) == "" {
+				failAt = append(failAt, e.At) // an internal fault of the plan fired
 			}
 		}
 		kindsPending := map[string]bool{}
